@@ -85,6 +85,9 @@ func c17Gen(rng *core.RNG, idx int) c17Profile {
 			}
 			txt := latin1(rng, n)
 			descData = imggen.TextDescription(txt)
+			if rng.Intn(3) == 0 { // the optional Unicode and ScriptCode parts filled in: the ASCII part stays the description
+				descData = imggen.TextDescriptionFull(txt, c17Text(rng, "bmp", 1+rng.Intn(20)), latin1(rng, rng.Intn(60)))
+			}
 			p.accept = []string{txt}
 		} else {
 			nrec = 1 + rng.Intn(6)
@@ -96,7 +99,7 @@ func c17Gen(rng *core.RNG, idx int) c17Profile {
 			case 2:
 				nrec = 7 + rng.Intn(34)
 			}
-			content = []string{"ascii", "bmp", "astral", "empty-en", "latin1", "bom"}[rng.Intn(6)]
+			content = []string{"ascii", "bmp", "astral", "empty-en", "latin1", "bom", "long-astral"}[rng.Intn(7)]
 			enpos = []string{"first", "middle", "last", "absent", "twice"}[rng.Intn(5)]
 			if nrec == 1 && (enpos == "middle" || enpos == "twice") {
 				enpos = "first"
@@ -108,7 +111,18 @@ func c17Gen(rng *core.RNG, idx int) c17Profile {
 				if ck == "empty-en" {
 					ck = "ascii"
 				}
-				recs[i] = imggen.MlucRecord{Lang: c17Langs[langs[i%len(langs)]], Country: core.Pick(rng, c17Countries), Text: c17Text(rng, ck, 1+rng.Intn(40))}
+				tl := 1 + rng.Intn(40)
+				if ck == "long-astral" { // longer than any plausible decode block, pairs at every alignment
+					ck, tl = "astral", []int{1020, 1023, 1024, 1025, 2047, 2049, 3000, 4100}[rng.Intn(8)]+rng.Intn(3)
+					if nrec > 3 {
+						nrec = 3
+						recs = recs[:3]
+					}
+				}
+				if i >= len(recs) {
+					break
+				}
+				recs[i] = imggen.MlucRecord{Lang: c17Langs[langs[i%len(langs)]], Country: core.Pick(rng, c17Countries), Text: c17Text(rng, ck, tl)}
 			}
 			enIdx := []int{}
 			switch enpos {
